@@ -66,6 +66,16 @@ CHECKS["C01"] = dict(
   text="Alphabet and decode tables agree symbol by symbol with the specifications; for every address type the encoder's (address-type constant, bytes arriving after every re-slice) is accepted by the packer, loses no byte of the type's hash array and is mapped back by a reachable decode arm to the same Go type, with packer and classifier agreeing on version bytes; the hex public-key arm uses the curve package's key lengths and String/ScriptAddress share one serialiser; IsForNet tests the Params field the constructors store; script-taking constructors hash with RIPEMD160(SHA256) / SHA256(SHA256). The unfinished P2SH32 support is reported as five KNOWN-FINDING entries. String equality for every hash, convertBits arithmetic and the Base58 radix conversion are not decided.",
   note="Trusted: CashAddr / Base58Check constants; chaincfg.Params field names. Known finding K1 (P2SH32 truncation, dead decode arms) is listed in known_findings.json.",
   ref="§3 C01, §6 K1")
+CHECKS["C09"] = dict(
+  technique="canonical-term comparison (writer vs reader, sibling serialisers) over go/ssa, structural match of the BIP37 bit-index formula, constant checks against the wire package, dominance of nil guards",
+  text="The bit array is only ever OR-ed into; the function that sets bits and the function that tests them compute byte index, bit mask, loop range and hash arguments as identical canonical terms (so every inserted item is found); the two outpoint serialisers fill txid at 0 and the little-endian index at 32 identically; the bit number is MurmurHash3(i*0xFBA4C795+tweak, item) mod 8*len(filter); NewFilter clamps size and hash-function count with the wire constants; writer and reader touch the message only behind a nil test. MurmurHash3's arithmetic, wrap-around behaviour and the floating-point sizing values are not decided.",
+  note="Trusted: BIP37 constants; binary.LittleEndian.PutUint32; the ten MurmurHash3 suite vectors pin the hash itself.",
+  ref="§3 C09, §2.4")
+CHECKS["C10"] = dict(
+  technique="CFG loop-exit and dominance analysis, argument-provenance matching, classification-chain extraction against txscript/wire constants, must-pass-through facts",
+  text="Narrow by design: the transaction matcher leaves its output loop only by exhaustion and gives every verdict after it; the (script, txid, index) passed to the update helper belong to the same output; the helper inserts unconditionally for BloomUpdateAll, exactly for {PubKeyTy, MultiSigTy} for P2PubkeyOnly and never otherwise; the block scanner visits every transaction, registers inputs in the spender index in the checking iteration, and the checker records matches and re-checks registered dependants on the matched edge. The match relation over all scripts, spend graphs and permutations is not decided.",
+  note="Trusted: txscript.GetScriptClass/PushedData; BIP37 flag semantics; wire field names.",
+  ref="§3 C10")
 
 NA_REASON = {
  "C17": "Every clause with content is a statement about IEEE-754 rounding of f*1e8, a/10^k and shortest-decimal printing over 2.1e15 integers; no fact about the shape of amount.go implies or refutes it, and the two shape-level clauses (NaN/Inf rejected, unit labels) are already pinned by the suite (DESIGN.md §4).",
